@@ -91,12 +91,20 @@ Qed.
 Definition lbl_bucket (lbl : option bytes) : option (list bytes) :=
   match lbl with Some l => Some [l] | None => None end.
 
-Theorem read_set_layout s a p :
-  a_endian a = LE -> length s = 257%nat -> layout a p (set_cells s) ->
+(* what the reader makes of a set vector of ANY length: the label and exactly 256 slots (missing ones absent, extra ones ignored
+   - as the writer's `set.get(index)` treats them) *)
+Definition norm_set (s : oset) : oset := hd None s :: map (slot s) (seq 1 256).
+Lemma norm_set_wf s : length s = 257%nat -> norm_set s = s.
+Proof. intros H. symmetry. apply set_is_slots. exact H. Qed.
+Lemma norm_set_length s : length (norm_set s) = 257%nat.
+Proof. unfold norm_set. cbn [length]. rewrite map_length, seq_length. reflexivity. Qed.
+
+Theorem read_set_layout_gen s a p :
+  a_endian a = LE -> layout a p (set_cells s) ->
   am_get p (a_labels a) = lbl_bucket (hd None s) ->
-  read_set a p = Ok (s, p + cells_size (set_cells s)).
+  read_set a p = Ok (norm_set s, p + cells_size (set_cells s)).
 Proof.
-  intros He Hlen Hl Hlab. unfold read_set, set_cells in *. cbn [layout] in Hl. destruct Hl as [C Lg].
+  intros He Hl Hlab. unfold read_set, set_cells in *. cbn [layout] in Hl. destruct Hl as [C Lg].
   change (cell_size (CRaw (enc LE 4 (main_flags s)))) with 4 in Lg.
   assert (Hin : inside a p 4 = true).
   { apply inside_true. cbn [cell_at] in C. change (lenN (enc LE 4 (main_flags s))) with 4 in C.
@@ -106,9 +114,14 @@ Proof.
   rewrite RL. rewrite (r_read_u32_raw a p (main_flags s) He (main_flags_bound s) C).
   unfold range. rewrite (read_groups_layout s a He (seq 0 GROUPS) [hd None s] (p + 4) (seq_below 8) Lg).
   cbn [bind fst snd]. rewrite rev_app_distr, rev_involutive, all_slots. cbn [rev app].
-  rewrite <- (set_is_slots s Hlen). cbn [cells_size cell_size]. change (lenN (enc LE 4 (main_flags s))) with 4.
+  fold (norm_set s). cbn [cells_size cell_size]. change (lenN (enc LE 4 (main_flags s))) with 4.
   f_equal. f_equal. lia.
 Qed.
+Theorem read_set_layout s a p :
+  a_endian a = LE -> length s = 257%nat -> layout a p (set_cells s) ->
+  am_get p (a_labels a) = lbl_bucket (hd None s) ->
+  read_set a p = Ok (s, p + cells_size (set_cells s)).
+Proof. intros He Hlen Hl Hlab. rewrite (read_set_layout_gen s a p He Hl Hlab), (norm_set_wf s Hlen). reflexivity. Qed.
 
 Lemma am_get_lbl_entry_other x p lbl (m : amap (list bytes)) : x <> p -> am_get x (lbl_entry p lbl ++ m) = am_get x m.
 Proof.
@@ -122,6 +135,30 @@ Proof.
   - apply am_get_none. intros H. apply sets_labels_keys in H. pose proof (set_space_ge s). lia.
 Qed.
 
+Theorem read_sets_layout_gen a : a_endian a = LE ->
+  forall sets acc p fuel,
+  layout a p (sets_cells sets) -> size a = p + cells_size (sets_cells sets) ->
+  (forall x, p <= x -> am_get x (a_labels a) = am_get x (sets_labels p sets)) ->
+  (length sets <= fuel)%nat ->
+  read_sets fuel a p acc = Ok (rev acc ++ map norm_set sets).
+Proof.
+  intros He. induction sets as [|s r IH]; intros acc p fuel Hl Hs Hlab Hf; cbn [sets_cells cells_size length map] in *.
+  - rewrite N.add_0_r in Hs. rewrite app_nil_r.
+    destruct fuel; cbn [read_sets]; (destruct (N.leb_spec (size a) p); [reflexivity | lia]).
+  - apply layout_app in Hl. destruct Hl as [L1 L2].
+    rewrite cells_size_app in Hs. pose proof (set_space_ge s) as G. rewrite <- set_cells_size in G.
+    destruct fuel as [|fuel]; [lia|]. cbn [read_sets].
+    destruct (N.leb_spec (size a) p) as [Hle|_]; [lia|].
+    rewrite (read_set_layout_gen s a p He L1).
+    2:{ rewrite (Hlab p (N.le_refl p)). apply am_get_sets_labels_first. }
+    rewrite bind_ok. cbn [fst snd].
+    replace (rev acc ++ norm_set s :: map norm_set r) with (rev (norm_set s :: acc) ++ map norm_set r)
+      by (cbn [rev]; rewrite <- app_assoc; reflexivity).
+    apply IH; [exact L2 | lia | | lia].
+    intros x Hx. rewrite (Hlab x) by lia. cbn [sets_labels]. rewrite set_cells_size. apply am_get_lbl_entry_other. lia.
+Qed.
+Lemma map_norm_wf sets : Forall (fun s : oset => length s = 257%nat) sets -> map norm_set sets = sets.
+Proof. induction 1 as [|s r Hs Hr IH]; cbn [map]; [reflexivity|]. rewrite IH, (norm_set_wf s Hs). reflexivity. Qed.
 Theorem read_sets_layout a : a_endian a = LE ->
   forall sets acc p fuel,
   Forall (fun s : oset => length s = 257%nat) sets ->
@@ -130,19 +167,7 @@ Theorem read_sets_layout a : a_endian a = LE ->
   (length sets <= fuel)%nat ->
   read_sets fuel a p acc = Ok (rev acc ++ sets).
 Proof.
-  intros He. induction sets as [|s r IH]; intros acc p fuel Hwf Hl Hs Hlab Hf; cbn [sets_cells cells_size length] in *.
-  - rewrite N.add_0_r in Hs. rewrite app_nil_r.
-    destruct fuel; cbn [read_sets]; (destruct (N.leb_spec (size a) p); [reflexivity | lia]).
-  - inversion Hwf as [|? ? W Wr]; subst. apply layout_app in Hl. destruct Hl as [L1 L2].
-    rewrite cells_size_app in Hs. pose proof (set_space_ge s) as G. rewrite <- set_cells_size in G.
-    destruct fuel as [|fuel]; [lia|]. cbn [read_sets].
-    destruct (N.leb_spec (size a) p) as [Hle|_]; [lia|].
-    rewrite (read_set_layout s a p He W L1).
-    2:{ rewrite (Hlab p (N.le_refl p)). apply am_get_sets_labels_first. }
-    rewrite bind_ok. cbn [fst snd].
-    replace (rev acc ++ s :: r) with (rev (s :: acc) ++ r) by (cbn [rev]; rewrite <- app_assoc; reflexivity).
-    apply IH; [exact Wr | exact L2 | lia | | lia].
-    intros x Hx. rewrite (Hlab x) by lia. cbn [sets_labels]. rewrite set_cells_size. apply am_get_lbl_entry_other. lia.
+  intros He sets acc p fuel Hwf Hl Hs Hlab Hf. rewrite (read_sets_layout_gen a He sets acc p fuel Hl Hs Hlab Hf), (map_norm_wf sets Hwf). reflexivity.
 Qed.
 
 Lemma read_strings_layout a : forall t n acc p,
@@ -155,14 +180,18 @@ Proof.
     rewrite (IH _ (o :: acc) (p + 4) eq_refl L). cbn [rev]. rewrite <- app_assoc. f_equal. f_equal. lia.
 Qed.
 
-(* the reader on any archive that shows the file layout and the labels *)
-Theorem from_archive_layout v a :
-  wf_aset v -> a_endian a = LE -> layout a 0 (file_cells v) -> size a = cells_size (file_cells v) ->
+(* the reader on any archive that shows the file layout and the labels; sets of any length read back normalised *)
+Definition norm_aset (v : aset) : aset := {| as_meta := as_meta v; as_table := as_table v; as_sets := map norm_set (as_sets v) |}.
+Lemma norm_aset_wf v : wf_aset v -> norm_aset v = v.
+Proof. intros [_ Hs]. unfold norm_aset. rewrite (map_norm_wf _ Hs). destruct v; reflexivity. Qed.
+
+Theorem from_archive_layout_gen v a :
+  length (as_table v) = 257%nat -> a_endian a = LE -> layout a 0 (file_cells v) -> size a = cells_size (file_cells v) ->
   find_label_address a ACNT = Some 12 ->
   (forall x, SETS_AT <= x -> am_get x (a_labels a) = am_get x (sets_labels SETS_AT (as_sets v))) ->
-  from_archive a = Ok v.
+  from_archive a = Ok (norm_aset v).
 Proof.
-  intros [Ht Hs] He Hl Hsz Hf Hlab. unfold from_archive. rewrite Hf. cbn [of_option bind].
+  intros Ht He Hl Hsz Hf Hlab. unfold from_archive. rewrite Hf. cbn [of_option bind].
   unfold file_cells in Hl, Hsz. apply layout_app in Hl. destruct Hl as [Lh Lr].
   unfold header_cells in Lh. cbn [layout] in Lh. destruct Lh as (_ & Cm & _).
   change (0 + cell_size (CRaw (enc LE 4 4))) with (0 + 4) in Cm. rewrite (r_read_string_cell a (0 + 4) (as_meta v) Cm).
@@ -171,7 +200,15 @@ Proof.
   rewrite cells_size_strs, Ht in Ls. change (12 + 4 * N.of_nat 257) with SETS_AT in *.
   rewrite !cells_size_app, cells_size_strs, Ht in Hsz. change (cells_size (header_cells v)) with 12 in Hsz.
   assert (Hsz' : size a = SETS_AT + cells_size (sets_cells (as_sets v))) by (unfold SETS_AT; lia).
-  rewrite (read_sets_layout a He (as_sets v) [] SETS_AT _ Hs Ls Hsz' Hlab).
-  - cbn [bind rev app]. destruct v; reflexivity.
+  rewrite (read_sets_layout_gen a He (as_sets v) [] SETS_AT _ Ls Hsz' Hlab).
+  - cbn [bind rev app]. reflexivity.
   - pose proof (sets_cells_size_ge (as_sets v)) as G. unfold size, lenN in Hsz'. lia.
+Qed.
+Theorem from_archive_layout v a :
+  wf_aset v -> a_endian a = LE -> layout a 0 (file_cells v) -> size a = cells_size (file_cells v) ->
+  find_label_address a ACNT = Some 12 ->
+  (forall x, SETS_AT <= x -> am_get x (a_labels a) = am_get x (sets_labels SETS_AT (as_sets v))) ->
+  from_archive a = Ok v.
+Proof.
+  intros W He Hl Hsz Hf Hlab. rewrite (from_archive_layout_gen v a (proj1 W) He Hl Hsz Hf Hlab), (norm_aset_wf v W). reflexivity.
 Qed.
